@@ -273,6 +273,18 @@ class Facts:
             raise AnchorError("crate %s not in facts of configuration %s" % (name, self.config))
         return self.crates[name]
 
+    def impl_methods(self, trait, name):
+        """all bodies implementing method `name` of `trait` (by impl), over all analysed crates"""
+        idx = getattr(self, "_impl_idx", None)
+        if idx is None:
+            idx = {}
+            for cr in self.crates.values():
+                for fn in cr.fns:
+                    if fn.impl_trait and fn.impl_self:
+                        idx.setdefault((fn.impl_trait, fn.name), []).append(fn)
+            self._impl_idx = idx
+        return idx.get((trait, name), [])
+
     def fn_by_canon(self, canon):
         c = canon.split("::", 1)[0]
         cr = self.crates.get(c)
